@@ -201,7 +201,8 @@ def cases(tier, seed):
             ('offsets', ['header', 'text']),
             ('stext', [None, 'after', 'before']),
             ('analysis', [None, 'header', 'text']),
-            ('seg_order', [None] + SEG_ORDERS)]
+            ('seg_order', [None] + SEG_ORDERS),
+            ('via', ['path', 'handle-peeked', 'handle-twice'])]     # loaded from an open file object that has been read from before
     k = 2 if tier == 'quick' else 3
     bases = [dict(kind='int', widths=[16], byteord='4,3,2,1', rk=['full']),
              dict(kind='int', widths=[8, 24], byteord='1,2,3,4', rk=['npot', 'full']),
@@ -264,9 +265,19 @@ def run_case(c):
     try:
         with warnings.catch_warnings(record=True):
             warnings.simplefilter('always')
-            f = FlowCal.io.FCSFile(path)
-            data = f.data
-            d = FlowCal.io.FCSData(path)
+            via = c.get('via', 'path')
+            if via == 'path':
+                f = FlowCal.io.FCSFile(path)
+                data = f.data
+                d = FlowCal.io.FCSData(path)
+            else:
+                with open(path, 'rb') as fh:
+                    if via == 'handle-peeked':
+                        fh.read(6)               # e.g. the caller looked at the version string first
+                    f = FlowCal.io.FCSFile(fh)
+                    data = np.array(f.data)
+                    d = FlowCal.io.FCSData(fh)   # the same handle a second time
+                    d = d.copy()
     except Exception as e:
         if refuse:
             res.ok('refused:' + c['refuse'][0])
